@@ -2313,14 +2313,31 @@ package goatlang
 //@   ensures#readonly m.keys == old(m.keys) && m.data == old(m.data) && (forall j int :: 0 <= j && j < len(m.keys) ==> same(m.keys[j], old(m.keys[j])))
 //@ func (*numericMap).String loop 0
 //@   invariant m != nil && (cap(p) == 0 || isfresh(arr(p)))
-//@ -- a numeric-keyed map literal: the ordered key list holds exactly the literal's keys, in order
+//@ -- a map literal builds a well-formed map: every key of the literal is in the ordered key list
+//@ -- exactly once, also one that the literal lists twice (W1, W2 of the abstract view)
 //@ func newNumericMap
 //@   property C10
+//@   appendfwd
 //@   requires len(in) % 2 == 0 && (forall j int :: 0 <= j && j < len(in) ==> valid(in[j]))
 //@   modifies *
-//@   ensures#keys is(result.value, *numericMap) && len(as(result.value, *numericMap).keys) == len(in) / 2
+//@   ensures#wf is(result.value, *numericMap) && nmWf(as(result.value, *numericMap))
+//@   ensures#bound len(as(result.value, *numericMap).keys) <= len(in) / 2
 //@ func newNumericMap loop 0
-//@   invariant m != nil && isfresh(m) && m.data != nil && i >= 0 && i % 2 == 0 && len(m.keys) == len(in) / 2 && isfresh(arr(m.keys))
+//@   invariant m != nil && isfresh(m) && m.data != nil && i >= 0 && i % 2 == 0 && i <= len(in) && len(m.keys) <= i / 2 && (cap(m.keys) == 0 || isfresh(arr(m.keys)))
+//@   invariant#w1 forall k float64 :: haskey(m.data, k) ==> inSlice(m.keys, k)
+//@   invariant#live forall a int :: 0 <= a && a < len(m.keys) ==> haskey(m.data, m.keys[a])
+//@   invariant#distinct forall a int, b int :: 0 <= a && a < b && b < len(m.keys) ==> !same(m.keys[a], m.keys[b])
+//@ func newStringMap
+//@   property C10
+//@   appendfwd
+//@   requires len(in) % 2 == 0 && (forall j int :: 0 <= j && j < len(in) ==> valid(in[j]))
+//@   modifies *
+//@   ensures#wf is(result.value, *stringMap) && smWf(as(result.value, *stringMap))
+//@ func newStringMap loop 0
+//@   invariant m != nil && isfresh(m) && m.data != nil && i >= 0 && i % 2 == 0 && i <= len(in) && len(m.keys) <= i / 2 && (cap(m.keys) == 0 || isfresh(arr(m.keys)))
+//@   invariant#w1 forall k string :: haskey(m.data, k) ==> inSlice(m.keys, k)
+//@   invariant#live forall a int :: 0 <= a && a < len(m.keys) ==> haskey(m.data, m.keys[a])
+//@   invariant#distinct forall a int, b int :: 0 <= a && a < b && b < len(m.keys) ==> !same(m.keys[a], m.keys[b])
 //@ func (*numericMap).SafeStr
 //@   property C14 C03
 //@   requires m != nil && m.data != nil
